@@ -213,14 +213,42 @@ def cmd_replay(a):
 
 
 def cmd_selftest(a):
-    """determinism across worker counts for every profile"""
+    """harness determinism, proved on a sample: the same cases (a) twice in this process with 16 and 4 workers and
+    (b) in a fresh interpreter with another PYTHONHASHSEED and another worker count must give identical event-log digests"""
+    import pickle
+    from . import campaign
     seed = int(os.environ.get("VERIF_SEED", "1"))
     libs = {"plain": build.build("plain")}
     rc = 0
-    for pid in ["C08"]:
+    work = os.path.join(build.WORK, "selftest-%d" % os.getpid())
+    os.makedirs(work, exist_ok=True)
+    for pid in ["C01", "C02", "C03", "C04", "C07", "C08", "C09", "C10", "C12", "C14"]:
         prof = runner.profile(pid)
-        bad, _ = determinism_smoke(pid, "quick", seed, libs, a.cases, prof.timeout("quick"))
-        print(pid, "nondeterministic cases:", bad)
-        if bad:
+        t0 = time.time()
+        bad, first = determinism_smoke(pid, "quick", seed, libs, a.cases, prof.timeout("quick"))
+        out = os.path.join(work, pid + ".pkl")
+        env = campaign.plain_env({"PYTHONHASHSEED": "12345"})
+        p = campaign.spawn(["--pid", pid, "--tier", "quick", "--seed", str(seed), "--start", "0", "--count", str(a.cases),
+                            "--build", "plain", "--nproc", "5"], env, out, wall=1800)
+        p.wait()
+        try:
+            other = {r["index"]: r["digest"] for r in pickle.load(open(out, "rb"))["recs"]}
+        except Exception:
+            print(pid, "HARNESS-ERROR: fresh-interpreter campaign failed")
             rc = 2
+            continue
+        bad2 = [r["index"] for r in first if other.get(r["index"]) != r["digest"]]
+        print("%s: %d cases x 3 executions (16 workers, 4 workers, fresh interpreter PYTHONHASHSEED=12345 with 5 workers): "
+              "digest mismatches in-process %s, across interpreters %s  [%.0fs]" % (pid, a.cases, bad, bad2, time.time() - t0))
+        if bad or bad2:
+            rc = 2
+        for f in (out, out + ".log"):
+            try:
+                os.unlink(f)
+            except OSError:
+                pass
+    try:
+        os.rmdir(work)
+    except OSError:
+        pass
     return rc
